@@ -29,14 +29,13 @@ Theorem C37_traffic_cheque_total : forall (known : bool) (m : option emit_cheque
 Proof. exact traffic_cheque_total. Qed.
 Print Assumptions C37_traffic_cheque_total.
 
-(** init stream, both sides.  Partial: assumes the property of the un-modelled EIP-712
-    encoder that a cheque with a nil payout never verifies ([verified_has_payout]); the
-    only dereference of the payout comes after a successful verification *)
-Theorem C37_traffic_init_partial : forall (known taken : bool) (m : option emit_cheque) (j : json_cheque),
-  verified_has_payout j ->
+(** init stream, both sides.  Full: the former assumption about the EIP-712 encoder is now part of the model
+    ([cf_verified]: a nil payout is rendered "<nil>", which the uint256 parser rejects, so verification fails
+    before the only dereference of the payout) and is checked against the real verifier by the correspondence *)
+Theorem C37_traffic_init_total : forall (known taken : bool) (m : option emit_cheque) (j : json_cheque),
   traffic_init_in known taken m j <> Panicked /\ traffic_init_out known taken m j <> Panicked.
-Proof. intros k t m j H. exact (conj (traffic_init_in_total k t m j H) (traffic_init_out_total k t m j H)). Qed.
-Print Assumptions C37_traffic_init_partial.
+Proof. intros k t m j. exact (conj (traffic_init_in_total k t m j) (traffic_init_out_total k t m j)). Qed.
+Print Assumptions C37_traffic_init_total.
 
 (** pingpong: the front has no panic-capable operation (stated for completeness) *)
 Theorem C37_pingpong_total : forall texts : list (list N),
@@ -108,6 +107,27 @@ Theorem C37_retrieval_total : forall (self : list N) (has_chunk full root_known 
   retrieval_handler self has_chunk full root_known m deliv <> Panicked.
 Proof. exact retrieval_handler_total. Qed.
 Print Assumptions C37_retrieval_total.
+
+(** chunkinfo pyramid exchange: serving side (local pyramid) and relaying side (the target's answer,
+    any sequence of entries, whatever the traversal library says about it, and the bookkeeping that
+    follows an accepted pyramid: bit indices stay inside the vectors) *)
+Theorem C37_chunkinfo_pyramid_total : forall (st : pyr_state) (fwd_ok : bool) (m : option pyr_req) (reply : list pyr_resp) (t : trav_ans),
+  res_outcome (pyramid_handler st fwd_ok m reply t) <> Panicked.
+Proof. exact pyramid_handler_total. Qed.
+Print Assumptions C37_chunkinfo_pyramid_total.
+
+(** multicast, initiating direction: handshake reply, find-group reply (addresses of any length filed
+    into the group), group-message reply *)
+Theorem C37_multicast_clients_total : forall (self peer : list N) (gids addrs : option (list (list N))) (gm : option group_msg),
+  mc_hs_out MaxPO self peer gids <> Panicked /\ mc_group_node MaxPO self addrs <> Panicked /\ mc_send gm <> Panicked.
+Proof. intros. apply mc_clients_total. Qed.
+Print Assumptions C37_multicast_clients_total.
+
+(** routetab relay: PackRelayResp's first read and the forward branch of onRelay *)
+Theorem C37_routetab_relay_total : forall (self : list N) (is_conn fwd_ok : bool) (m : option relay_req),
+  rt_relay MaxPO self is_conn fwd_ok m <> Panicked.
+Proof. intros. apply rt_relay_total. Qed.
+Print Assumptions C37_routetab_relay_total.
 
 (** DistanceCmp as modelled here (explicit index panics) is the C20 function on all inputs *)
 Theorem C37_distance_cmp_is_C20 : forall a x y : list N,
